@@ -62,10 +62,11 @@ pub fn inv_only(op: u8, c: usize, r: usize, spare: bool) {
 
 /// Multi-step histories with symbolic arguments (u8 cells), checked against a rows-of-cells model
 /// kept as plain index arithmetic.
-/// h = 0: c x 1 array, remove the only row -> (0,0); regrow with a row of a different width w; push_col.
-/// h = 1: start empty; insert_row(len a) ; insert_col(idx symbolic) ; remove_row(0) -> empty; push_col(len b)
-/// h = 2: c x r ; pop_col until empty ; push_row(len w)
-pub fn history(h: u8, c: usize, r: usize) {
+/// h = 0: c x 1 array, remove the only row -> (0,0); regrow with a row of width a; push_col.
+/// h = 1: start empty; insert_row(len a >= 1) ; insert_col(idx symbolic) ; remove_row(0) -> empty; push_col(len b)
+/// h = 2: c x r ; pop_col until empty ; push_row(len a >= 1)
+/// (lengths a, b are concrete per harness; indices and contents are symbolic)
+pub fn history(h: u8, c: usize, r: usize, a: usize, b: usize) {
     let cells = nd::bytes::<16>();
     let line = nd::bytes::<4>();
     if h == 0 {
@@ -73,7 +74,8 @@ pub fn history(h: u8, c: usize, r: usize) {
         drop(t.remove_row(0));
         assert!(t.size() == (0, 0), "ORACLE: removing the last row must leave (0,0)");
         inv(&t);
-        let w = nd::upto(4);
+        // the new width is concrete per harness (a Vec of symbolic length is what CBMC cannot digest)
+        let w = a;
         let mut v = Vec::with_capacity(4);
         v.extend_from_slice(&line[..w]);
         t.push_row(v);
@@ -88,7 +90,6 @@ pub fn history(h: u8, c: usize, r: usize) {
         }
     } else if h == 1 {
         let mut t: TooDee<u8> = TooDee::default();
-        let a = 1 + nd::upto(2);
         let mut v = Vec::with_capacity(4);
         v.extend_from_slice(&line[..a]);
         t.insert_row(0, v);
@@ -106,7 +107,6 @@ pub fn history(h: u8, c: usize, r: usize) {
         drop(t.remove_row(0));
         inv(&t);
         assert!(t.size() == (0, 0), "ORACLE: empty again");
-        let b = nd::upto(3);
         let mut v = Vec::with_capacity(4);
         v.extend_from_slice(&cells[..b]);
         t.push_col(v);
@@ -124,7 +124,7 @@ pub fn history(h: u8, c: usize, r: usize) {
         }
         assert!(t.size() == (0, 0), "ORACLE: popping every column must leave (0,0)");
         assert!(t.pop_col().is_none() && t.pop_row().is_none(), "ORACLE: pop on empty");
-        let w = 1 + nd::upto(2);
+        let w = a;
         let mut v = Vec::with_capacity(4);
         v.extend_from_slice(&line[..w]);
         t.push_row(v);
